@@ -8,7 +8,7 @@ func init() {
 
 func vfIsBoolOpName(s string) bool { return refIsAnd(s) || refIsOr(s) }
 
-// VerifC12: args = [source, event option ("event" | "debug"), fault mode, configs].
+// VerifC12: args = [source, event option ("event" | "debug" | "both"), fault mode, configs].
 //
 //	(1) enabling events changes neither Eval/TryEval results nor Dump
 //	(2) the OP_EXEC events of an evaluation, read after it has finished (a retaining /
@@ -24,12 +24,16 @@ func VerifC12(args []string) {
 	w := newWorld(tree, "")
 	w.mayFail, w.opsFail = mode == "f", true
 	for _, opts := range vfConfigs(args, 3) {
-		plain, err := Compile(w.config("keys", opts), src)
+		plain, err := Compile(w.config(vfRegOf(args), opts), src)
 		vfAssert(err == nil && plain != nil, "well-formed expression compiles under "+opts)
-		conf := w.config("keys", opts)
-		if evOpt == "debug" {
+		conf := w.config(vfRegOf(args), opts)
+		switch evOpt {
+		case "debug":
 			conf.CompileOptions[Debug] = true
-		} else {
+		case "both":
+			conf.CompileOptions[ReportEvent] = true
+			conf.CompileOptions[Debug] = true
+		default:
 			conf.CompileOptions[ReportEvent] = true
 		}
 		e, err := Compile(conf, src)
